@@ -1,72 +1,54 @@
 import Std.Data.HashMap
 import Std.Data.HashSet
 import EupsModel.Drv.Util
-import EupsModel.Model.Lock
-import EupsModel.Model.LockPath
-import EupsModel.Model.LockRace
-/-! Driver handler of C09 (model `c09`).
+import EupsModel.Drv.C09Pinned
+import EupsModel.Model.LockR
+import EupsModel.Model.LockPathR
+import EupsModel.Model.LockCmd
+/-! Driver handler of C09 (model `c09`): the repaired lock protocol (`Model/LockR.lean`, `Model/LockPathR.lean`).
 
 * `{"m":"c09","op":"run","procs":[{"kind":"E"|"S","lp":null|n,"tries":n}..],"sched":[pid..]}` runs the schedule
-  from the initial configuration with `Lock.step` and reports, per scheduled step, the call and its result class
-  (`Lock.obs`), whether `Mutex` holds after the step, and at the end the program counters, the directory flag and
-  the listing.
+  from the initial configuration with `LockR.step` and reports, per scheduled step, the call and its result class
+  (`LockR.obs`; a schedule entry `-(i+1)` is a signal delivered to process `i`, `LockR.interrupt`), the pairs violating `Mutex` after the step, and at the end the program counters, the directory flag
+  and the listing.
+* `{"m":"c09","op":"runpath",..,"ndirs":n}` the same over several stacks (`LockPathR.mstep`).
 * `{"m":"c09","op":"explore","procs":[..],"max":N}` enumerates the reachable states of the configuration (at most
   `N`) and returns a set of maximal schedules that takes every transition of the state graph at least once, plus
-  statistics: states, transitions, states violating `Mutex`, quiescent states with residue, and the number of
-  violating states that none of the three race monitors (D12a/b/c) explains.  Exploration support for the
-  correspondence check — not part of any proof. -/
+  statistics: states, transitions, states violating `Mutex` (the theorem says none), quiescent states with residue
+  (none); with `"signals":true` the graph also has the signal transitions (a signal for a process in its body) and the
+  schedules carry them as `-(i+1)`.  Exploration support for the correspondence check — not part of any proof.
+* `{"m":"c09","op":"cmdtable"}` the lock bracket of the command line (`Model/LockCmd.lean`): per command the registered
+  lock type, whether it updates a stack, who releases; `{"op":"cmdline","cmd":name,"help":b,"nolocks":b,"enabled":b,
+  "env_path":[..],"Z":[..]|null,"z":n|null}` the lock one command line takes and the stacks it takes it on.
+* `pinned_run`, `pinned_explore`, `pinned_runpath`, `pinned_racefree`: the same operations on the pinned protocol
+  (`Drv/C09Pinned.lean`), model only. -/
 namespace EupsModel.Drv.C09
-open Lean EupsModel EupsModel.Drv EupsModel.Lock EupsModel.LockPath
-
-structure Proc where
-  kind  : Kind
-  lp    : Option Pid
-  tries : Nat
-
-def procOfJson (j : Json) : Except String Proc := do
-  let k ← (← j.getObjVal? "kind").getStr?
-  let kind ← match k with
-    | "E" => pure Kind.ex
-    | "S" => pure Kind.sh
-    | _ => throw s!"kind {k}"
-  let lp ← match j.getObjVal? "lp" with
-    | .ok Json.null => pure none
-    | .ok v => do pure (some (← v.getNat?))
-    | .error _ => pure none
-  let tries ← jnat j "tries"
-  pure { kind, lp, tries }
-
-def kindOf (ps : Array Proc) (i : Pid) : Kind := match ps[i]? with | some p => p.kind | none => .sh
-def lpOf (ps : Array Proc) (i : Pid) : Option Pid := match ps[i]? with | some p => p.lp | none => none
-def triesOf (ps : Array Proc) (i : Pid) : Nat := match ps[i]? with | some p => p.tries | none => 0
+open Lean EupsModel EupsModel.Drv EupsModel.LockR EupsModel.LockPathR
+open EupsModel.Lock (Pid Kind Err)
+open EupsModel.Drv.C09Pinned (Proc procOfJson kindOf lpOf triesOf kindStr fileStr)
 
 def initOf (ps : Array Proc) : St := init (kindOf ps) (lpOf ps) (triesOf ps)
 
-def kindStr : Kind → String | .ex => "E" | .sh => "S"
-def fileStr (f : Kind × Pid) : String := kindStr f.1 ++ toString f.2
 def errStr : Err → String
   | .runtime => "RuntimeError" | .index => "IndexError" | .enoent => "FileNotFoundError"
   | .enotempty => "OSError" | .stopIter => "StopIteration"
 
 def callStr : Call → String
-  | .mkdir => "mkdir" | .existsDir => "exists_dir" | .scanAll => "scan_all" | .scanEx => "scan_ex"
+  | .mkdir => "mkdir" | .scanAll => "scan_all" | .scanEx => "scan_ex"
   | .create => "create" | .work => "work" | .isdir => "isdir" | .existsFile => "exists_file"
-  | .remove => "remove" | .count => "count" | .rmdir => "rmdir" | .none => "-"
+  | .remove => "remove" | .rmdir => "rmdir" | .none => "-"
 
 def resStr : Res → String
   | .ok => "ok" | .eexist => "EEXIST" | .enoent => "ENOENT" | .enotempty => "ENOTEMPTY"
-  | .stopIter => "StopIteration" | .yes => "True" | .no => "False"
+  | .yes => "True" | .no => "False"
   | .listing l => "[" ++ ",".intercalate (l.map fileStr) ++ "]"
-  | .num n => toString n
   | .nothing => "-"
 
-def pcStr : PC → String
-  | .mkdir _ => "pending:mkdir" | .existsChk => "pending:exists_dir" | .scanAll _ => "pending:scan_all"
-  | .scanMsg _ => "pending:scan_all" | .scan => "pending:scan_ex" | .scan2 => "pending:scan_ex"
-  | .create => "pending:create" | .hold => "locked" | .unlocked => "unlocked"
-  | .isdir => "pending:isdir" | .rexists => "pending:exists_file" | .remove => "pending:remove"
-  | .count => "pending:count" | .rmdir => "pending:rmdir" | .done => "done"
+def pcStr (s : St) (i : Pid) : String :=
+  match s.pc i with
+  | .hold => "locked" | .done => "done" | .killed => "killed"
   | .failedAcq e => "failed:" ++ errStr e | .failedRel e => "failed_release:" ++ errStr e
+  | _ => "pending:" ++ callStr (obs s i).1
 
 /-- Unrelated pairs `(i, j)`, `i` an exclusive holder, `j` in its body: the violations of `Mutex` among pids `< n`. -/
 def violators (n : Nat) (s : St) : List (Pid × Pid) :=
@@ -74,117 +56,130 @@ def violators (n : Nat) (s : St) : List (Pid × Pid) :=
     if i != j && !decide (related s i j) && s.pc i == .hold && s.kind i == .ex && inBody (s.pc j)
     then some (i, j) else none
 
+def terminal : PC → Bool
+  | .done | .failedAcq _ | .failedRel _ | .killed => true
+  | _ => false
+
+/-- `"stale": [["E", 9], ..]`: lock files left behind by killed processes (kind, pid ≥ number of live processes) -/
+def ghostsOfJson (j : Json) : Except String (List (Kind × Pid)) :=
+  match j.getObjVal? "stale" with
+  | .ok (Json.arr a) => a.toList.mapM fun g => do
+      let l ← g.getArr?
+      let k ← match l[0]? with
+        | some (Json.str "E") => pure Kind.ex
+        | some (Json.str "S") => pure Kind.sh
+        | _ => throw "stale: kind"
+      let p ← match l[1]? with
+        | some v => v.getNat?
+        | none => throw "stale: pid"
+      pure (k, p)
+  | _ => pure []
+
+/-- schedule entries: `i ≥ 0` the next call of process `i`; `-(i+1)` a signal for process `i`; `1000000`
+`eups admin clearLocks`; `1000001` `eups admin listLocks` -/
+def evClear : Int := 1000000
+def evList : Int := 1000001
+/-- `2000000 + i`: SIGKILL for process `i` -/
+def evKill : Int := 2000000
+
+/-- what `listLocks` shows: the lockers' pids (it prints user and pid, not the kind of lock) -/
+def sortedListing (fs : List (Kind × Pid)) : String :=
+  "[" ++ ",".intercalate (((fs.map (·.2)).toArray.qsort (· < ·)).toList.map toString) ++ "]"
+
 def opRun (j : Json) : Except String Json := do
   let ps := (← (← jarr j "procs").mapM procOfJson).toArray
-  let sched ← (← jarr j "sched").mapM fun v => v.getNat?
+  let ghosts ← ghostsOfJson j
+  -- a schedule entry i ≥ 0 is the next call of process i; an entry -(i+1) is a signal delivered to process i
+  let sched ← (← jarr j "sched").mapM fun v => v.getInt?
   let n := ps.size
-  let mut s := initOf ps
+  let kind : Pid → Kind := fun i => match ghosts.find? (fun g => g.2 == i) with | some g => g.1 | none => kindOf ps i
+  let mut s := if ghosts.isEmpty then initOf ps else initStale kind (lpOf ps) (triesOf ps) ghosts
   let mut steps : Array Json := #[]
-  for i in sched do
-    if i ≥ n then throw s!"pid {i} out of range"
-    let (c, r) := obs s i
-    s := step s i
-    let v := violators n s
-    steps := steps.push (Json.arr #[toJson i, callStr c, resStr r,
-      Json.arr (v.map fun (a, b) => Json.arr #[toJson a, toJson b]).toArray])
+  for e in sched do
+    if e == evClear || e == evList then
+      let rs := if e == evClear then "ok" else (if s.dir then sortedListing s.files else "-")
+      s := if e == evClear then clearLocks s else s
+      let v := violators n s
+      steps := steps.push (Json.arr #[toJson (-1 : Int), (if e == evClear then "clearLocks" else "listLocks"), rs,
+        Json.arr (v.map fun (a, b) => Json.arr #[toJson a, toJson b]).toArray])
+    else if e ≥ evKill then
+      let i := (e - evKill).toNat
+      if i ≥ n then throw s!"pid {i} out of range"
+      let rs := if terminal (s.pc i) then "gone" else "killed"
+      s := if terminal (s.pc i) then s else crash s i
+      let v := violators n s
+      steps := steps.push (Json.arr #[toJson i, "sigkill", rs,
+        Json.arr (v.map fun (a, b) => Json.arr #[toJson a, toJson b]).toArray])
+    else
+      let i := if e ≥ 0 then e.toNat else (-e - 1).toNat
+      if i ≥ n then throw s!"pid {i} out of range"
+      let (cs, rs) :=
+        if e ≥ 0 then (let (c, r) := obs s i; (callStr c, resStr r))
+        else ("signal", if s.pc i == .hold then "delivered" else "ignored")
+      s := if e ≥ 0 then step s i else interrupt s i
+      let v := violators n s
+      steps := steps.push (Json.arr #[toJson i, cs, rs,
+        Json.arr (v.map fun (a, b) => Json.arr #[toJson a, toJson b]).toArray])
   pure (Json.mkObj [
     ("steps", Json.arr steps),
-    ("pcs", Json.arr ((List.range n).map fun i => Json.str (pcStr (s.pc i))).toArray),
+    ("pcs", Json.arr ((List.range n).map fun i => Json.str (pcStr s i)).toArray),
     ("dir", s.dir),
     ("files", Json.arr (s.files.map fun f => Json.str (fileStr f)).toArray)])
 
 /-! ### exploration -/
 
-/-- hashable image of a state, with the race monitors: per process "my last exclusive-file scan passed while an
-unrelated requester was in flight, one of us exclusive" (`a`) and "a directory was removed while I was in flight" (`b`) -/
 structure Snap where
   dir   : Bool
   files : List (Kind × Pid)
   pcs   : List PC
-  a     : List Bool
-  b     : List Bool
   deriving BEq, Hashable, Inhabited
 
 def snapSt (ps : Array Proc) (x : Snap) : St :=
   { dir := x.dir, files := x.files, kind := kindOf ps, lp := lpOf ps,
     pc := fun i => x.pcs.getD i .done }
 
-def inflight : PC → Bool
-  | .scan | .scan2 | .create => true
-  | _ => false
+def snapStep (ps : Array Proc) (x : Snap) (p : Pid) : Snap :=
+  let s' := step (snapSt ps x) p
+  { dir := s'.dir, files := s'.files, pcs := (List.range ps.size).map s'.pc }
 
-def terminal : PC → Bool
-  | .done | .failedAcq _ | .failedRel _ => true
-  | _ => false
+def snapIntr (ps : Array Proc) (x : Snap) (p : Pid) : Snap :=
+  let s' := interrupt (snapSt ps x) p
+  { dir := s'.dir, files := s'.files, pcs := (List.range ps.size).map s'.pc }
 
-def snapStep (ps : Array Proc) (mon : Bool) (x : Snap) (p : Pid) : Snap :=
-  let n := ps.size
-  let s := snapSt ps x
-  let s' := step s p
-  let pc := s.pc p
-  let pc' := s'.pc p
-  -- an admission test: the parent test of an exclusive request (scanAll -> scan) or an "exclusive*" listing that passes
-  let isScan := pc == .scan || pc == .scan2 || (match pc with | .scanAll _ => true | _ => false)
-  let passed := pc' == .scan2 || pc' == .create || (pc' == .scan && pc != .scan)
-  let seesRace := (List.range n).any fun q =>
-    q != p && !decide (related s p q) && inflight (s.pc q) && (s.kind p == .ex || s.kind q == .ex)
-  let a := (List.range n).map fun q =>
-    if q == p then
-      (match pc with
-       | .mkdir _ => false
-       | _ => if isScan && passed && seesRace then true else x.a.getD q false)
-    else x.a.getD q false
-  let rmOk := pc == .rmdir && s.dir && !s'.dir
-  let b := (List.range n).map fun q =>
-    if q == p then (match pc with | .mkdir _ => false | _ => x.b.getD q false)
-    else if rmOk && inflight (s.pc q) then true else x.b.getD q false
-  { dir := s'.dir, files := s'.files, pcs := (List.range n).map s'.pc,
-    a := if mon then a else [], b := if mon then b else [] }
-
-def snapInit (ps : Array Proc) (mon : Bool) : Snap :=
-  let n := ps.size
-  { dir := false, files := [], pcs := (List.range n).map fun i => PC.mkdir (triesOf ps i),
-    a := if mon then List.replicate n false else [], b := if mon then List.replicate n false else [] }
-
-/-- classification of the violating pairs of a state: none left unexplained? -/
-def unexplained (ps : Array Proc) (x : Snap) : List (Pid × Pid) :=
-  let s := snapSt ps x
-  (violators ps.size s).filter fun (i, j) =>
-    !(s.pc j == .unlocked) && !(x.b.getD i false || x.b.getD j false) && !(x.a.getD i false || x.a.getD j false)
-
-def raceClass (ps : Array Proc) (x : Snap) : List String :=
-  let s := snapSt ps x
-  (violators ps.size s).map fun (i, j) =>
-    if s.pc j == .unlocked then "c"
-    else if x.b.getD i false || x.b.getD j false then "b"
-    else if x.a.getD i false || x.a.getD j false then "a"
-    else "none"
+def snapInit (ps : Array Proc) : Snap :=
+  { dir := false, files := [], pcs := (List.range ps.size).map fun i => PC.mkdir (triesOf ps i) }
 
 structure Graph where
   snaps  : Array Snap
-  parent : Array (Nat × Pid)          -- BFS tree: predecessor state and the pid stepped
-  succ   : Array (Array (Option Nat)) -- per state, per pid: successor (none = process terminated)
+  parent : Array (Nat × Nat)          -- BFS tree: predecessor state and the event taken
+  succ   : Array (Array (Option Nat)) -- per state, per event: successor (none = not enabled)
   full   : Bool                       -- false when the state bound was hit
+  nev    : Nat                        -- events per state: n calls [+ n signals]
 
-def buildGraph (ps : Array Proc) (mon : Bool) (maxStates : Nat) : Graph := Id.run do
+/-- event `q < n`: the next call of process `q`; event `n + p` (only with `sig`): a signal delivered to process `p`
+in its command body -/
+def evToInt (n q : Nat) : Int := if q < n then (q : Int) else -((q - n : Nat) : Int) - 1
+
+def buildGraph (ps : Array Proc) (maxStates : Nat) (sig : Bool := false) : Graph := Id.run do
   let n := ps.size
-  let x0 := snapInit ps mon
+  let nev := if sig then 2 * n else n
+  let x0 := snapInit ps
   let mut idx : Std.HashMap Snap Nat := {}
   idx := idx.insert x0 0
   let mut snaps : Array Snap := #[x0]
-  let mut parent : Array (Nat × Pid) := #[(0, 0)]
+  let mut parent : Array (Nat × Nat) := #[(0, 0)]
   let mut succ : Array (Array (Option Nat)) := #[]
   let mut full := true
   let mut u := 0
-  -- `snaps` grows while we scan it: plain BFS
   while u < snaps.size do
     let x := snaps[u]!
     let mut row : Array (Option Nat) := #[]
-    for p in [0:n] do
-      if terminal (x.pcs.getD p .done) then
+    for q in [0:nev] do
+      let p := if q < n then q else q - n
+      if terminal (x.pcs.getD p .done) || (q ≥ n && !(x.pcs.getD p .done == .hold)) then
         row := row.push none
       else
-        let y := snapStep ps mon x p
+        let y := if q < n then snapStep ps x p else snapIntr ps x p
         match idx[y]? with
         | some v => row := row.push (some v)
         | none =>
@@ -195,14 +190,14 @@ def buildGraph (ps : Array Proc) (mon : Bool) (maxStates : Nat) : Graph := Id.ru
             let v := snaps.size
             idx := idx.insert y v
             snaps := snaps.push y
-            parent := parent.push (u, p)
+            parent := parent.push (u, q)
             row := row.push (some v)
     succ := succ.push row
     u := u + 1
-  return { snaps, parent, succ, full }
+  return { snaps, parent, succ, full, nev }
 
-def pathTo (g : Graph) (u : Nat) : List Pid := Id.run do
-  let mut acc : List Pid := []
+def pathTo (g : Graph) (u : Nat) : List Nat := Id.run do
+  let mut acc : List Nat := []
   let mut v := u
   let mut fuel := g.snaps.size + 1
   while v != 0 && fuel > 0 do
@@ -213,16 +208,15 @@ def pathTo (g : Graph) (u : Nat) : List Pid := Id.run do
   return acc
 
 /-- maximal schedules covering every transition of the graph -/
-def pathCover (g : Graph) (n : Nat) : Array (List Pid) := Id.run do
-  let mut covered : Std.HashSet (Nat × Pid) := {}
-  let mut out : Array (List Pid) := #[]
+def pathCover (g : Graph) (n : Nat) : Array (List Nat) := Id.run do
+  let mut covered : Std.HashSet (Nat × Nat) := {}
+  let mut out : Array (List Nat) := #[]
   for u in [0:g.snaps.size] do
     for p in [0:n] do
       if (g.succ[u]!)[p]!.isSome && !covered.contains (u, p) then
-        -- reach u, take p, then walk on, preferring transitions not yet taken, until nothing is enabled
-        let mut sched : Array Pid := (pathTo g u).toArray
+        let mut sched : Array Nat := (pathTo g u).toArray
         let mut cur := u
-        let mut nxt : Option Pid := some p
+        let mut nxt : Option Nat := some p
         let mut fuel := 100000
         while nxt.isSome && fuel > 0 do
           let q := nxt.get!
@@ -231,8 +225,8 @@ def pathCover (g : Graph) (n : Nat) : Array (List Pid) := Id.run do
           cur := ((g.succ[cur]!)[q]!).get!
           fuel := fuel - 1
           let row := g.succ[cur]!
-          let mut fresh : Option Pid := none
-          let mut anyp : Option Pid := none
+          let mut fresh : Option Nat := none
+          let mut anyp : Option Nat := none
           for r in [0:n] do
             if row[r]!.isSome then
               if anyp.isNone then anyp := some r
@@ -245,41 +239,37 @@ def opExplore (j : Json) : Except String Json := do
   let ps := (← (← jarr j "procs").mapM procOfJson).toArray
   let maxStates := (jnat j "max").toOption.getD 200000
   let wantSched := (jbool j "schedules").toOption.getD true
-  let mon := (jbool j "monitors").toOption.getD false
+  let sig := (jbool j "signals").toOption.getD false
   let n := ps.size
-  let g := buildGraph ps mon maxStates
+  let g := buildGraph ps maxStates sig
   let mut edges : Nat := 0
   let mut viol : Nat := 0
-  let mut unexpl : Nat := 0
   let mut residue : Nat := 0
   let mut quiescent : Nat := 0
-  let mut classes : Std.HashMap String Nat := {}
-  let mut unexplEx : Option (List Pid) := none
-  let mut residueEx : Option (List Pid) := none
+  let mut holders2 : Nat := 0
+  let mut violEx : Option (List Nat) := none
+  let mut residueEx : Option (List Nat) := none
   for u in [0:g.snaps.size] do
     let x := g.snaps[u]!
     edges := edges + ((g.succ[u]!).filter (·.isSome)).size
     let s := snapSt ps x
     if !(violators n s).isEmpty then
       viol := viol + 1
-      for c in (if mon then raceClass ps x else []) do
-        classes := classes.insert c (classes.getD c 0 + 1)
-      if mon && !(unexplained ps x).isEmpty then
-        unexpl := unexpl + 1
-        if unexplEx.isNone then unexplEx := some (pathTo g u)
+      if violEx.isNone then violEx := some (pathTo g u)
+    if (x.pcs.filter (· == .hold)).length ≥ 2 then holders2 := holders2 + 1
     if x.pcs.all (fun pc => !engaged pc) then
       quiescent := quiescent + 1
       if x.dir || !x.files.isEmpty then
         residue := residue + 1
         if residueEx.isNone then residueEx := some (pathTo g u)
-  let scheds := if wantSched then pathCover g n else #[]
+  let scheds := if wantSched then pathCover g g.nev else #[]
+  let ints := fun (l : List Nat) => toJson (l.map (evToInt n))
   pure (Json.mkObj [
     ("full", g.full), ("states", g.snaps.size), ("edges", edges), ("violating", viol),
-    ("unexplained", unexpl), ("quiescent", quiescent), ("residue", residue),
-    ("classes", Json.mkObj (classes.toList.map fun (k, v) => (k, toJson v))),
-    ("unexplained_example", match unexplEx with | some l => toJson l | none => Json.null),
-    ("residue_example", match residueEx with | some l => toJson l | none => Json.null),
-    ("schedules", Json.arr (scheds.map fun l => toJson l))])
+    ("quiescent", quiescent), ("residue", residue), ("two_holders", holders2),
+    ("violating_example", match violEx with | some l => ints l | none => Json.null),
+    ("residue_example", match residueEx with | some l => ints l | none => Json.null),
+    ("schedules", Json.arr (scheds.map fun l => ints l))])
 
 /-! ### several stacks -/
 
@@ -296,6 +286,7 @@ def pprocOfJson (j : Json) : Except String PProc := do
 
 def outStr : Out → String
   | .done => "done" | .failedAcq e => "failed:" ++ errStr e | .failedRel e => "failed_release:" ++ errStr e
+  | .killed => "killed"
 
 def ctlStr (S : PSt) (i : Pid) : String :=
   match S.ctl i with
@@ -313,7 +304,7 @@ def mviolators (n nd : Nat) (S : PSt) : List (Pid × Pid) :=
 
 def opRunPath (j : Json) : Except String Json := do
   let ps := (← (← jarr j "procs").mapM pprocOfJson).toArray
-  let sched ← (← jarr j "sched").mapM fun v => v.getNat?
+  let sched ← (← jarr j "sched").mapM fun v => v.getInt?
   let nd ← jnat j "ndirs"
   let n := ps.size
   let base := ps.map (·.base)
@@ -321,13 +312,17 @@ def opRunPath (j : Json) : Except String Json := do
     (fun i => match ps[i]? with | some p => p.path | none => [])
     (fun i => match ps[i]? with | some p => p.explicit | none => true)
   let mut steps : Array Json := #[]
-  for i in sched do
+  for e in sched do
+    let i := if e ≥ 0 then e.toNat else (-e - 1).toNat
     if i ≥ n then throw s!"pid {i} out of range"
-    let (d, c, r) := mobs S i
-    S := mstep S i
+    let (cs, rs) :=
+      if e ≥ 0 then
+        (let (d, c, r) := mobs S i
+         (match d with | some d => callStr c ++ "@" ++ toString d | none => callStr c, resStr r))
+      else ("signal", if inBodyM (S.ctl i) then "delivered" else "ignored")
+    S := if e ≥ 0 then mstep S i else mintr S i
     let v := mviolators n nd S
-    let cs := match d with | some d => callStr c ++ "@" ++ toString d | none => callStr c
-    steps := steps.push (Json.arr #[toJson i, cs, resStr r,
+    steps := steps.push (Json.arr #[toJson i, cs, rs,
       Json.arr (v.map fun (a, b) => Json.arr #[toJson a, toJson b]).toArray])
   let listing := (List.range nd).map fun d =>
     let s := S.comp d
@@ -341,83 +336,51 @@ def opRunPath (j : Json) : Except String Json := do
       | _ => Json.null).toArray),
     ("listing", Json.arr listing.toArray)])
 
-/-! ### race-free exploration (development aid for `C09_classification`): only steps that are none of the three races;
-every candidate invariant evaluated on every reachable state, bounded to the pids of the configuration -/
+/-! ### the lock bracket of the command line -/
 
-def admitsB (s : St) (p : Pid) : Bool :=
-  (match s.pc p with | .scanAll _ => parentHolds (s.lp p) s.files | _ => false)
-  || (s.pc p == .scan && (exFiles s.files).length == 0)
-  || (s.pc p == .scan2 && (match (exFiles s.files).head? with | some f => s.lp p == some f.2 | none => false))
+open EupsModel.LockCmd in
+def cmdName : Cmd → String
+  | .flavor => "flavor" | .path => "path" | .startup => "startup" | .pkgroot => "pkgroot" | .flags => "flags"
+  | .list => "list" | .pkgConfig => "pkg-config" | .uses => "uses" | .expandbuild => "expandbuild"
+  | .expandtable => "expandtable" | .declare => "declare" | .undeclare => "undeclare" | .remove => "remove"
+  | .admin => "admin" | .adminBuildCache => "admin buildCache" | .adminClearCache => "admin clearCache"
+  | .adminClearServerCache => "admin clearServerCache" | .adminClearLocks => "admin clearLocks"
+  | .adminListLocks => "admin listLocks" | .adminListCache => "admin listCache" | .adminInfo => "admin info"
+  | .adminShow => "admin show" | .distrib => "distrib" | .distribClean => "distrib clean"
+  | .distribCreate => "distrib create" | .distribDeclare => "distrib declare" | .distribInstall => "distrib install"
+  | .distribList => "distrib list" | .distribPath => "distrib path" | .distribTags => "distrib tags"
+  | .tags => "tags" | .vro => "vro" | .help => "help" | .setup => "setup"
 
-def racyB (n : Nat) (s : St) (p : Pid) : Bool :=
-  (admitsB s p && (List.range n).any fun q =>
-      q != p && !decide (related s p q) && Lock.inflight (s.pc q) && (s.kind p == .ex || s.kind q == .ex))
-  || (s.pc p == .rmdir && s.dir && s.files.isEmpty && (List.range n).any fun q => q != p && Lock.inflight (s.pc q))
-  || (s.pc p == .existsChk && !s.dir)
+def kindJson : Option Kind → Json
+  | some k => Json.str (kindStr k)
+  | none => Json.null
 
-def pastB : PC → Bool
-  | .create | .hold | .isdir | .rexists | .remove => true
-  | _ => false
+def opCmdTable (_ : Json) : Except String Json :=
+  pure (Json.arr (LockCmd.Cmd.all.map fun c => Json.mkObj [
+    ("name", cmdName c), ("lock", kindJson (LockCmd.lockType c)), ("updates", LockCmd.updates c),
+    ("explicit", LockCmd.explicitRelease c), ("sub", LockCmd.isSub c)]).toArray)
 
-def inAdmB : PC → Bool
-  | .scan | .scan2 | .create | .hold | .isdir | .rexists | .remove => true
-  | _ => false
-
-def hasFileB : PC → Bool
-  | .hold | .isdir | .rexists | .remove => true
-  | _ => false
-
-/-- index of an entry in the listing -/
-def posOf (fs : List (Kind × Pid)) (f : Kind × Pid) : Option Nat := fs.findIdx? (· == f)
-
-def invChecks (n : Nat) (s : St) : List (String × Bool) :=
-  let ids := List.range n
-  [ ("dirIn", ids.all fun p => !Lock.inflight (s.pc p) || s.dir),
-    ("noUnl", ids.all fun p => !(s.pc p == .unlocked)),
-    ("k1", ids.all fun p => !(s.pc p == .existsChk) || s.kind p == .sh),
-    ("exsh", ids.all fun p => ids.all fun q =>
-      p == q || decide (related s p q) || !(s.kind p == .ex) || !(s.kind q == .sh) || !inAdmB (s.pc p) || !pastB (s.pc q)),
-    ("exex", ids.all fun p => ids.all fun q =>
-      p == q || decide (related s p q) || !(s.kind p == .ex) || !(s.kind q == .ex) || !pastB (s.pc p) || !pastB (s.pc q)),
-    ("order", ids.all fun p => ids.all fun r =>
-      !(s.lp p == some r) ||
-        (match posOf s.files (.ex, p), posOf s.files (.ex, r) with
-         | some a, some b => a < b
-         | _, _ => true)),
-    ("rootIn", ids.all fun r => ids.all fun p =>
-      !(Lock.inflight (s.pc r)) || !(s.kind r == .ex) || !(s.lp p == some r) || !(s.kind p == .ex) || !inAdmB (s.pc p)),
-    ("mutex", (violators n s).isEmpty) ]
-
-def opRaceFree (j : Json) : Except String Json := do
-  let ps := (← (← jarr j "procs").mapM procOfJson).toArray
-  let maxStates := (jnat j "max").toOption.getD 2000000
-  let n := ps.size
-  let x0 := snapInit ps false
-  let mut idx : Std.HashSet Snap := {}
-  idx := idx.insert x0
-  let mut todo : Array Snap := #[x0]
-  let mut bad : Std.HashMap String Nat := {}
-  let mut states : Nat := 0
-  let mut skipped : Nat := 0
-  let mut u := 0
-  while u < todo.size do
-    let x := todo[u]!
-    u := u + 1
-    states := states + 1
-    let s := snapSt ps x
-    for (nm, ok) in invChecks n s do
-      if !ok then bad := bad.insert nm (bad.getD nm 0 + 1)
-    for p in [0:n] do
-      if !terminal (x.pcs.getD p .done) then
-        if racyB n s p then
-          skipped := skipped + 1
-        else
-          let y := snapStep ps false x p
-          if !idx.contains y && todo.size < maxStates then
-            idx := idx.insert y
-            todo := todo.push y
-  pure (Json.mkObj [("states", states), ("racy_steps_skipped", skipped),
-    ("violated", Json.mkObj (bad.toList.map fun (k, v) => (k, toJson v)))])
+def opCmdLine (j : Json) : Except String Json := do
+  let nm ← (← j.getObjVal? "cmd").getStr?
+  let c ← match LockCmd.Cmd.all.find? (fun c => cmdName c == nm) with
+    | some c => pure c
+    | none => throw s!"unknown command {nm}"
+  let o : LockCmd.Opts := { help := (jbool j "help").toOption.getD false,
+                            nolocks := (jbool j "nolocks").toOption.getD false,
+                            enabled := (jbool j "enabled").toOption.getD true }
+  let env ← (← jarr j "env_path").mapM fun v => v.getNat?
+  let z ← match j.getObjVal? "Z" with
+    | .ok (Json.arr a) => do pure (some (← a.toList.mapM fun v => v.getNat?))
+    | _ => pure none
+  let zz ← match j.getObjVal? "z" with
+    | .ok Json.null => pure none
+    | .ok v => do pure (some (← v.getNat?))
+    | .error _ => pure none
+  let k := LockCmd.bracket c o
+  pure (Json.mkObj [
+    ("kind", kindJson k),
+    ("stacks", toJson (match k with | some _ => LockCmd.lockedStacks env z zz | none => [])),
+    ("explicit", LockCmd.explicitRelease c), ("updates", LockCmd.updates c)])
 
 def handle : Handler := fun j => do
   let op ← (← j.getObjVal? "op").getStr?
@@ -425,7 +388,12 @@ def handle : Handler := fun j => do
   | "run" => opRun j
   | "explore" => opExplore j
   | "runpath" => opRunPath j
-  | "racefree" => opRaceFree j
+  | "cmdtable" => opCmdTable j
+  | "cmdline" => opCmdLine j
+  | "pinned_run" => C09Pinned.opRun j
+  | "pinned_explore" => C09Pinned.opExplore j
+  | "pinned_runpath" => C09Pinned.opRunPath j
+  | "pinned_racefree" => C09Pinned.opRaceFree j
   | _ => throw s!"unknown op {op}"
 
 end EupsModel.Drv.C09
